@@ -3,9 +3,10 @@
 #include <stdexcept>
 using namespace covfie;
 
+static bool g_consistent = false;
 template <class B> static field<B> make(size_t bound)
 {
-    auto o = vf::blank<B>(bound);
+    auto o = g_consistent ? vf::blank_c<B>(bound) : vf::blank<B>(bound);
     vf::sym(o);
     return field<B>(make_parameter_pack(std::move(o)));
 }
@@ -46,6 +47,12 @@ template <int K, size_t LEN> static void roundtrip_len_h()
 {
     vf::g_exact_len = LEN + 1;
     roundtrip_h<K, 0>();
+}
+// consistent geometry: extents 1..BND per axis and exactly the storage the library would allocate for them
+template <int K, size_t BND> static void roundtrip_geo_h()
+{
+    g_consistent = true;
+    roundtrip_h<K, BND>();
 }
 template <int KA, int KB, size_t LEN> static void cross_len_h()
 {
